@@ -125,7 +125,7 @@ Proof. vm_compute. reflexivity. Qed.
    it exists, and its end state is stopped *)
 Example C20_ex_hypotheses_met :
   let s0 := init_state true 1 [{| t_kind := Imp; t_more := 1 |}; {| t_kind := Rem; t_more := 0 |}] [] true in
-  reachable cfg_repaired s0 /\ stop_coming s0 /\ rank s0 = 41.
+  reachable cfg_repaired s0 /\ stop_coming s0 /\ rank s0 = 30.
 Proof.
   cbn zeta. split; [|split].
   - apply init_reachable. cbn. auto with arith.
